@@ -34,7 +34,10 @@ def confirm_hang(text, res, eng, factor=10):
         return "%s: %s" % (res["status"], res["msg"])
     import re
     m = re.findall(r"^budget (\d+)$", text, re.M)
-    r2 = eng.run(text + "budget %d\n" % ((int(m[-1]) if m else 60000) * factor))
+    base = int(m[-1]) if m else 60000
+    # 10x the budget; for cases that already carry a large budget (hundreds of resident nodes, callback bursts) at least 3x and 2 million steps, which
+    # still fits the engine's wall-clock limit per case
+    r2 = eng.run(text + "budget %d\n" % min(base * factor, max(3 * base, 2000000)))
     if r2["status"] in TERMINATION_STATUSES:
-        return "hang (persists with %dx step budget): %s: %s" % (factor, r2["status"], r2["msg"])
+        return "hang (persists with a %dx step budget, or 2 million steps): %s: %s" % (factor, r2["status"], r2["msg"])
     return None
